@@ -18,6 +18,24 @@ CLAIMED = {
             "On every CFG path and calling context: a checked snapshot precedes every MLS merge; the MIP-03 comparator's 3x3 decision "
             "table equals the spec; the rollback arm invalidates, marks retryable, notifies and re-processes. Convergence of real "
             "schedules is not decided.", "DESIGN.md §4 C01"),
+    "C02": ("MIR dataflow: Ok-spine post-dominance (both records written), interprocedural provenance (field wiring, Message.epoch, "
+            "lookback window from config), transition-table extraction of the own-echo arm",
+            "Every Ok path after a received Message is built writes both records; stored fields are wired to the decoded rumor; "
+            "Message.epoch derives from ProcessedMessage::epoch(); the outer-layer window derives from MdkConfig; own-echo transition "
+            "table. Exactly-once under real interleavings is not decided.", "DESIGN.md §4 C02"),
+    "C03": ("MIR who-may-write (GroupState::Active), success-dominance (own-leaf check before exporter-secret export), "
+            "copy-provenance of the kind-445 content (nip44::encrypt of TLS-serialised MLS output)",
+            "Active is written only by create_group/accept_welcome; after a merge the exporter secret is exported only while still a "
+            "member and eviction stores Inactive; wrapper content is exactly NIP-44 ciphertext keyed by the exporter secret. What "
+            "OpenMLS/NIP-44 leak cryptographically is not decided.", "DESIGN.md §4 C03"),
+    "C04": ("MIR interprocedural success-dominance by public error variant (AuthorMismatch) and by guaranteed callee (verify_id)",
+            "A checked author-binding guard and a checked id verification success-dominate the construction of every stored Message "
+            "(receive and send path). OpenMLS replay protection is not decided.", "DESIGN.md §4 C04"),
+    "C05": ("MIR success-dominance by error variant, decision-table enumeration (authorisation function, whitelist predicate, closures), "
+            "arm-restricted who-may-call (proposal triage), boolean-guard dominance (sender side), store-consumption rule",
+            "Both commit guards dominate every merge of a received commit and precede any state change; the authorisation and whitelist "
+            "decision tables equal the spec; proposals are queued / auto-committed only on the named arms; sender-side admin test "
+            "dominates commit builders. Value-level correctness of the admin set is not decided.", "DESIGN.md §4 C05"),
 }
 PENDING_REASON = "check under construction in this round (see DESIGN.md); not yet claimed"
 NA = {}
